@@ -99,6 +99,8 @@ def run_world_prop(prop, tier, seed, replay):
     harness = [f for f in res["fails"] if f["prop"] == "HARNESS"]
     if harness:
         raise ToolError("harness/spec disagreement (not a verdict): %s" % harness[:3])
+    for dmsg in res.get("drift", [])[:3]:
+        print("SPEC-DRIFT: the strict store model (spec/WorldStore.tla) no longer predicts the store the code produces: " + dmsg)
     fails = [f for f in res["fails"] if f["prop"] == prop]
     if prop == "C11":
         # a world handed back from untrusted input must keep satisfying every other property
@@ -122,6 +124,7 @@ def run_world_prop(prop, tier, seed, replay):
         "op_counts": {k[3:]: v for k, v in st.items() if k.startswith("op:")},
         "stats": {k: v for k, v in st.items() if not k.startswith("op:")},
         "trace_failures_for_property": len(fails),
+        "strict_model_drift_events": st.get("strict-model-drift", 0),
         "exhaustive": False,
     }
     if level == "other":
